@@ -6,3 +6,20 @@ package bignum
 
 //@ afunc ToComplex
 //@   trusted opaque at the abstract level: a big complex number
+
+// ---- big integers as seen by the machine-integer engine: an object with one ghost value bigval(x)
+//@ func NewInt
+//@   trusted type switch over the accepted kinds: assumed to return a new big integer holding the (integer) argument
+//@   assigns
+//@   refnew y
+//@   refset y = x
+//@   ensures refid(y) == reftop()
+
+//@ func RandInt
+//@   trusted crypto/rand.Int: assumed to return a new big integer in [0, max-1], drawn from the reader
+//@   assigns
+//@   gassigns draws
+//@   refnew n
+//@   refset n = *
+//@   requires 0 < bigval(max)
+//@   ensures 0 <= bigval(n) && bigval(n) < bigval(max)
